@@ -8,5 +8,6 @@ func main() {
 		"c09": c09,
 		"c43": c43,
 		"c36": c36,
+		"c36probe": c36probe,
 	})
 }
